@@ -102,7 +102,7 @@ Theorem rename_alpha_core (p : prog) (rho : nat -> Z) :
       map (fun vt => match snd vt with TGlobal x => TGlobal x | TBind s a _ => TBind s a (rho (fst vt)) end) (combine vs ts).
 Proof.
   intros Hc Hok Hocc.
-  destruct (resolution_correct_core p Hc Hok Hocc) as (ps & Hrun & R).
+  destruct (resolution_correct_core_d p Hc Hok Hocc) as (ps & Hrun & R).
   exists ps. split; [exact Hrun|]. cbn zeta in *.
   set (st := pst ps) in *. set (vs := map (root_of st) (rev (plog ps))) in *. set (ts := spec_resolve p) in *.
   destruct R as (Rlen & Riff & Rglob & Rbound & _).
